@@ -205,7 +205,8 @@ def loop_progress(chk: Check) -> None:
             k = K.Kit(it)
             w = K.Wire(it)
             frames = [w.frame(w.statement_rows(1, 1, f"f{i}")) for i in range(nframes)]
-            return len(it.drain(k.call(k.get(K.IO, "frame_iterator"), k.input_stream(frames))))
+            inp = k.input_stream(frames) if nframes else K.models.make_input(K.AIter(iter([]), "frames"), b"")
+            return len(it.drain(k.call(k.get(K.IO, "frame_iterator"), inp)))
 
         for it, out in explore(chk.program, scenario, max_paths=4):
             chk.paths += 1
